@@ -1,7 +1,7 @@
 SPECIFICATION Spec
 CONSTANTS
-  MaxLoggers = 3
-  LoggerLevels = {0, 2, 3, 5}
-  Dump = TRUE
+  Cap = 1
+  MaxVal = 4
+  Topics = {0}
 INVARIANT Inv
 CHECK_DEADLOCK FALSE
